@@ -272,6 +272,14 @@ func runC18(r *vk.Run) {
 		`topk(1, count_over_time({job="j"} | drop msg [10s]) % 0)`, `bottomk(2, count_over_time({job="j"} | drop msg [10s]) % 0)`, `topk(2, count_over_time({job="j"} | drop msg [10s]) % 0) by (grp)`,
 		`topk(2, sum_over_time({job="j"} | logfmt | drop msg | unwrap v [10s]))`, `bottomk(1, max_over_time({job="j"} | logfmt | drop msg | unwrap v [10s]))`,
 		`avg(sum_over_time({job="j"} | logfmt | drop msg | unwrap w [10s]))`, `stddev(avg_over_time({job="j"} | logfmt | drop msg | unwrap w [10s]))`,
+		// order-sensitive aggregations fed by operators that pass samples on: ratios of two vectors (values
+		// like 0.3 that do not add up exactly) and the groups of a grouped top-k
+		`avg(sum by (pod) (sum_over_time({job="j"} | logfmt | drop msg | unwrap w [10s])) / sum by (pod) (count_over_time({job="j"} | drop msg [10s])))`,
+		`sum(sum by (pod) (sum_over_time({job="j"} | logfmt | drop msg | unwrap w [10s])) / sum by (pod) (count_over_time({job="j"} | drop msg [10s])))`,
+		`stddev(sum by (pod) (count_over_time({job="j"} | drop msg [10s])) / sum by (pod) (sum_over_time({job="j"} | logfmt | drop msg | unwrap w [10s])))`,
+		`avg(bottomk(1, avg_over_time({job="j"} | logfmt | drop msg | unwrap w [10s]) by (pod)) by (pod))`,
+		`sum(topk(1, avg_over_time({job="j"} | logfmt | drop msg | unwrap w [10s]) by (pod) / 10) by (pod))`,
+		`stdvar(topk(2, avg_over_time({job="j"} | logfmt | drop msg | unwrap w [10s]) by (pod, grp)) by (grp))`,
 	}
 	r.Phase("floatorder", r.N(4, 60), func(c *vk.Case) {
 		rng := c.Rng
